@@ -245,7 +245,8 @@ Proof.
     { induction l as [|u l IH]; intros sv0; cbn; [reflexivity|]. rewrite IH. unfold gc_one.
       destruct (find_uni _ _); [destruct (uni_active _)|]; reflexivity. }
     apply Hf.
-  - pose proof (fifo_srv_step st c I) as H. destruct (srv_step st c). exact H.
+  - assert (fifo_inv (wake_up st)) as I0 by (apply (fifo_same st); try reflexivity; try exact I; intros y; reflexivity).
+    pose proof (fifo_srv_step (wake_up st) c I0) as H. destruct (srv_step (wake_up st) c). exact H.
   - unfold cli_step. destruct (k_closed (st_cl st c)); [exact I|].
     destruct (k_s2c (st_cl st c)) as [|m rest] eqn:Es; [exact I|].
     destruct m as [rid|rid e|rid u p d|rid u nm h|u p d]; cbn [msg_rid].
@@ -253,6 +254,9 @@ Proof.
     all: destruct (out_take rid (k_out (st_cl st c))) as [[kd o]|]; cbn [fst];
       (apply (fifo_same st); try reflexivity; try exact I;
        intros y; cbn; unfold updf; destruct (y =? c) eqn:E; [apply N.eqb_eq in E; subst|]; reflexivity).
+  - apply (fifo_same st); try reflexivity; try exact I; intros y; reflexivity.
+  - pose proof (fifo_srv_step st c I) as H. destruct (srv_step st c) as [st1 t]. cbn [fst] in *.
+    apply (fifo_same st1); try reflexivity; try exact H; intros y; reflexivity.
 Qed.
 
 Lemma fifo_init n : fifo_inv (init_state n).
